@@ -143,6 +143,9 @@ pub struct DecStats {
 	pub produced: AtomicUsize,
 	pub dropped: AtomicBool,
 	pub dropped_in_audio: AtomicBool,
+	/// the decoder is held inside decode() (see `ScriptDecoder::with_block_after`) / may go on
+	pub blocked: AtomicBool,
+	pub release: AtomicBool,
 }
 
 /// A decoder over `len` index-coded frames.
@@ -160,10 +163,16 @@ pub struct ScriptDecoder {
 	/// what a decode call past the end of the stream gives: 0 = one silent frame (lenient), 1 = an error, 2 = an empty chunk
 	/// (kira never asks for it: `frame_at_index` answers indices >= num_frames itself)
 	pub eos: u8,
+	pub block_after: Option<usize>,
 	pub stats: Arc<DecStats>,
 }
 
 impl ScriptDecoder {
+	/// after `n` frames have been delivered the next decode call does not return until `stats.release` is set
+	pub fn with_block_after(mut self, n: usize) -> Self {
+		self.block_after = Some(n);
+		self
+	}
 	pub fn with_eos(mut self, eos: u8) -> Self {
 		self.eos = eos;
 		self
@@ -181,6 +190,7 @@ impl ScriptDecoder {
 				fail_at,
 				calls: 0,
 				eos: 0,
+				block_after: None,
 				stats: stats.clone(),
 			},
 			stats,
@@ -197,6 +207,16 @@ impl Decoder for ScriptDecoder {
 		self.len
 	}
 	fn decode(&mut self) -> Result<Vec<Frame>, String> {
+		if let Some(n) = self.block_after {
+			if self.stats.produced.load(Ordering::SeqCst) >= n {
+				self.stats.blocked.store(true, Ordering::SeqCst);
+				let t0 = std::time::Instant::now();
+				while !self.stats.release.load(Ordering::SeqCst) && t0.elapsed() < std::time::Duration::from_secs(30) {
+					std::thread::sleep(std::time::Duration::from_millis(1));
+				}
+				self.block_after = None;
+			}
+		}
 		self.calls += 1;
 		self.stats.decode_calls.fetch_add(1, Ordering::SeqCst);
 		if self.fail_at != 0 && self.calls == self.fail_at {
